@@ -198,7 +198,7 @@ func crashExcerpt(text string, max int) []string {
 
 func c19Batches(r *vkit.Run, rng *vkit.Rand) []c19Spec {
 	var specs []c19Spec
-	perConfig := r.N(3, 100)
+	perConfig := r.N(3, 40)
 	rounds := r.N(4, 6)
 	id := 0
 	for _, kind := range []string{"generic", "partstore"} {
@@ -234,11 +234,11 @@ func runC19(tier, replay string) {
 	}
 
 	specs := c19Batches(r, rng)
-	par := 6
+	par := r.N(6, 8)
 	if v := os.Getenv("VERIF_PAR"); v != "" {
 		fmt.Sscan(v, &par)
 	}
-	watchdog := time.Duration(r.N(150, 300)) * time.Second
+	watchdog := time.Duration(r.N(400, 600)) * time.Second
 	outcomes := make([]*c19BatchOutcome, len(specs))
 	var wg sync.WaitGroup
 	sem := make(chan struct{}, par)
